@@ -256,6 +256,8 @@ class _Simplify(ast.NodeTransformer):
         if isinstance(n.left, ast.Constant) and isinstance(n.right, ast.Constant) and type(n.left.value) is int and type(n.right.value) is int and isinstance(n.op, (ast.Add, ast.Sub, ast.Mult)):
             a, b = n.left.value, n.right.value
             return ast.Constant(value=a + b if isinstance(n.op, ast.Add) else (a - b if isinstance(n.op, ast.Sub) else a * b))
+        if isinstance(n.op, ast.Add) and isinstance(n.left, ast.Tuple) and isinstance(n.right, ast.Tuple) and not any(isinstance(x, ast.Starred) for x in n.left.elts + n.right.elts):
+            return ast.Tuple(elts=list(n.left.elts) + list(n.right.elts), ctx=ast.Load())  # (a, b) + (c,) -> (a, b, c)
         return n
 
     def visit_Subscript(self, n: ast.Subscript):
@@ -264,6 +266,11 @@ class _Simplify(ast.NodeTransformer):
             k = n.slice.value
             if -len(n.value.elts) <= k < len(n.value.elts):
                 return n.value.elts[k]
+        if isinstance(n.value, (ast.Tuple, ast.List)) and isinstance(n.slice, ast.Slice) and n.slice.step is None and not any(isinstance(x, ast.Starred) for x in n.value.elts):
+            lo, hi = n.slice.lower, n.slice.upper
+            if (lo is None or (isinstance(lo, ast.Constant) and type(lo.value) is int)) and (hi is None or (isinstance(hi, ast.Constant) and type(hi.value) is int)):
+                elts = n.value.elts[(lo.value if lo is not None else None) : (hi.value if hi is not None else None)]
+                return type(n.value)(elts=list(elts), ctx=ast.Load())  # (a, b, c)[1:] -> (b, c)
         return n
 
 
